@@ -46,6 +46,23 @@ pub struct Case {
 }
 
 thread_local! {
+    /// (pairs, pairs whose two successive selections used the same member) of the last `sample_shape` call
+    static SUCCESSIVE: std::cell::Cell<(u64, u64, Option<usize>, u64)> = const { std::cell::Cell::new((0, 0, None, 0)) };
+}
+
+/// record one successful pick for the successive-selection statistic (disjoint pairs 2t, 2t+1)
+fn note_pick(m: usize) {
+    SUCCESSIVE.with(|c| {
+        let (mut pairs, mut same, prev, t) = c.get();
+        if t % 2 == 1 {
+            pairs += 1;
+            same += u64::from(prev == Some(m));
+        }
+        c.set((pairs, same, Some(m), t + 1));
+    });
+}
+
+thread_local! {
     /// set by the oracle for cases that select from an empty population
     static EMPTY_POP: std::cell::Cell<bool> = const { std::cell::Cell::new(false) };
 }
@@ -216,6 +233,7 @@ fn with_chain<T>(
 
 /// Draw `n` selections from a shape; returns per-member pick counts or the construction outcome.
 fn sample_shape<G: rand::RngCore>(shape: &Shape, n: u64, rng: &mut G) -> Result<(Vec<u64>, Vec<u64>, bool), Fail> {
+    SUCCESSIVE.with(|c| c.set((0, 0, None, 0)));
     let pop = pop_for(shape);
     match shape {
         Shape::Tree(w) => {
@@ -236,6 +254,7 @@ fn sample_shape<G: rand::RngCore>(shape: &Shape, n: u64, rng: &mut G) -> Result<
                         let out = one_draw(&sel, |e| e.kind() == Kind::ZeroWeight, &counters, &pop, rng)?;
                         if let Some(m) = judge(&weights, out, "static tree")? {
                             picks[m] += 1;
+                            note_pick(m);
                         }
                     }
                     Ok((picks, weights, false))
@@ -263,7 +282,10 @@ fn sample_shape<G: rand::RngCore>(shape: &Shape, n: u64, rng: &mut G) -> Result<
                 with_chain(&ws, members, &counters, &mut |draw| {
                     for _ in 0..n {
                         match draw(&pop, &mut dynrng).and_then(|o| judge(&weights, o, "chain")) {
-                            Ok(Some(m)) => picks[m] += 1,
+                            Ok(Some(m)) => {
+                                picks[m] += 1;
+                                note_pick(m);
+                            }
                             Ok(None) => {}
                             Err(f) => {
                                 failure = Some(f);
@@ -316,6 +338,7 @@ fn sample_shape<G: rand::RngCore>(shape: &Shape, n: u64, rng: &mut G) -> Result<
                 let out = one_draw(&d, is_zero, &counters, &pop, rng)?;
                 if let Some(m) = judge(&weights, out, if between > 0 { "dynamic list completed after it had been used" } else { "dynamic list" })? {
                     picks[m] += 1;
+                    note_pick(m);
                 }
             }
             Ok((picks, weights, false))
@@ -488,11 +511,16 @@ fn law_jobs(seed: u64) -> Vec<Job> {
                     if total == 0 {
                         return Ok(vec![]);
                     }
-                    Ok(weights
+                    let mut stats: Vec<Stat> = weights
                         .iter()
                         .enumerate()
                         .map(|(i, w)| Stat::new("weighted/not-proportional", format!("{name}: member {i} (weight {w}) used"), picks[i], trials, *w as f64 / total as f64))
-                        .collect())
+                        .collect();
+                    // successive selections are independent: two in a row use the same member with probability sum p_i^2
+                    let (pairs, same, _, _) = SUCCESSIVE.with(std::cell::Cell::get);
+                    let p_same: f64 = weights.iter().map(|w| (*w as f64 / total as f64).powi(2)).sum();
+                    stats.push(Stat::new("weighted/successive-selections-not-independent", format!("{name}: two successive selections use the same member"), same, pairs, p_same.min(1.0)));
+                    Ok(stats)
                 }),
             }
         })
